@@ -189,6 +189,33 @@ class BoolCol:
     def __iter__(self):
         raise core.Unsupported("iteration over a symbolic boolean column")
 
+    # row-wise logic of two boolean columns over the same rows (mask1 & mask2, ~mask)
+    def _same_rows(self, other):
+        if not isinstance(other, BoolCol) or other.rows is not self.rows:
+            raise core.Unsupported("logic of boolean columns over different row sets")
+
+    def __and__(self, other):
+        if isinstance(other, bool):
+            return self if other else BoolCol(self.rows, lambda i: z3.BoolVal(False))
+        self._same_rows(other)
+        f, g = self.fn, other.fn
+        return BoolCol(self.rows, lambda i: z3.And(f(i), g(i)))
+
+    __rand__ = __and__
+
+    def __or__(self, other):
+        if isinstance(other, bool):
+            return BoolCol(self.rows, lambda i: z3.BoolVal(True)) if other else self
+        self._same_rows(other)
+        f, g = self.fn, other.fn
+        return BoolCol(self.rows, lambda i: z3.Or(f(i), g(i)))
+
+    __ror__ = __or__
+
+    def __invert__(self):
+        f = self.fn
+        return BoolCol(self.rows, lambda i: z3.Not(f(i)))
+
 
 class ColValues:
     """df[col].unique()"""
